@@ -100,7 +100,7 @@ def parse_desc(desc):
     return 9, 0, 0, 0
 
 
-def run_real(name, cfg, tc, decider, clock_times=None, max_tests=100000, watchdog=20.0):
+def run_real(name, cfg, tc, decider, clock_times=None, max_tests=100000, watchdog=45.0):
     """decider(k, content_bytes) -> bool for the k-th test of the strategy (0-based)"""
     import signal
 
@@ -109,13 +109,15 @@ def run_real(name, cfg, tc, decider, clock_times=None, max_tests=100000, watchdo
     old_handler = signal.signal(signal.SIGALRM, _alarm)
     signal.setitimer(signal.ITIMER_REAL, watchdog)
     try:
-        return _run_real(S, name, cfg, tc, decider, clock_times, max_tests)
+        return _run_real(S, name, cfg, tc, decider, clock_times, max_tests, watchdog)
     finally:
         signal.setitimer(signal.ITIMER_REAL, 0)
         signal.signal(signal.SIGALRM, old_handler)
 
 
-def _run_real(S, name, cfg, tc, decider, clock_times, max_tests):
+def _run_real(S, name, cfg, tc, decider, clock_times, max_tests, watchdog):
+    import signal
+
 
     st = make_strategy(name, cfg)
     clk = Clock(clock_times or [])
@@ -141,6 +143,7 @@ def _run_real(S, name, cfg, tc, decider, clock_times, max_tests):
         try:
             for attempt in it:
                 k = len(run.verdicts)
+                signal.setitimer(signal.ITIMER_REAL, watchdog)  # the watchdog measures time WITHOUT a test
                 if k >= max_tests:
                     raise TestLimit()
                 if limit is not None and clk.times and clk.times[min(clk.tests, len(clk.times) - 1)] > start + limit:
